@@ -6,7 +6,7 @@ from harness.pyval import enc, dec, py_fn, py_fn2
 
 PID = 'C09'
 RULE = ('scan(accumulator, seed, reduce, terminator) and the operators defined through it (count, sum, mean, min, max, '
-        'variance, to_list, batch, distinct_until_changed) with accumulators that mutate and return their accumulator '
+        'variance, to_list, to_array, batch, distinct_until_changed, dist.update) with accumulators that mutate and return their accumulator '
         '(list append), seeds given as values and as factories, reduce on/off, terminator on/off, on 1-4 interleaved keys '
         'with empty keys and slots reused by later lifetimes, lifetimes ended by a mux error instead of a completion (key created again later), and on plain observables; values emitted by reduce are handed to a consumer that mutates them in place (nothing reachable from an emitted value may be the seed or another key\'s state). Oracle: Python left fold per '
         'lifetime (functools-style), evaluated independently for every lifetime with a fresh seed. non-trivial = >= 2 '
@@ -38,7 +38,9 @@ DERIVED = [['sum', None, 0], ['sum', None, 1], ['sum', ['mul', enc(2)], 1], ['me
            ['min', None, 1], ['max', ['neg'], 1], ['max', None, 0], ['to_list'], ['count', 0], ['count', 1],
            ['variance', None, 0], ['variance', None, 1],
            # seeds that are tuples holding a mutable member (rxsci's own batch: ([], False))
-           ['batch', 2], ['batch', 3], ['batch', 1], ['duc', None], ['duc', ['floordiv', 2]]]
+           ['batch', 2], ['batch', 3], ['batch', 1], ['duc', None], ['duc', ['floordiv', 2]],
+           # the remaining operators the library defines through scan (to_array has a Coq model, dist.update has not)
+           ['to_array', 'q'], ['dist_update', 3, 0], ['dist_update', 3, 1], ['dist_update', 2, 1]]
 
 
 def generate(rng, tier):
@@ -91,7 +93,7 @@ def lifetimes_with_errors(trace):
 
 
 def reduces(node):
-    return (node[0] == 'scan' and bool(node[3])) or node[0] == 'to_list'
+    return (node[0] == 'scan' and bool(node[3])) or node[0] in ('to_list', 'to_array')
 
 
 def run_impl(case):
@@ -136,8 +138,17 @@ def fold_spec(node, xs):
         return per, fin
     if k == 'count':
         return ([[] if node[1] else [i + 1] for i in range(len(xs))], [len(xs)] if node[1] else [])
-    if k == 'to_list':
+    if k in ('to_list', 'to_array'):
         return ([[] for _ in xs], [list(xs)])
+    if k == 'dist_update':
+        import distogram
+        h = distogram.Distogram(bin_count=node[1])
+        per = []
+        snap = lambda d: ([list(b) for b in d.bins], d.min, d.max)
+        for x in xs:
+            h = distogram.update(h, x)
+            per.append([] if node[2] else [snap(h)])
+        return per, ([snap(h)] if node[2] else [])
     if k == 'batch':
         b = node[1]
         return ([[xs[i + 1 - b:i + 1]] if (i + 1) % b == 0 else [] for i in range(len(xs))],
